@@ -1,0 +1,13 @@
+//go:build verif
+
+// Contracts for package assertedpath, read by the verification-condition
+// generator in /verif (govc).  Comment-only.
+
+package assertedpath
+
+// After EnsureCleared no file exists below the path (the cache directory of a
+// previous run must not leave files that no record accounts for).
+//@ props C12
+//@ func AssertedPath.EnsureCleared
+//@   assigns ghost:fsinode
+//@   ensures [C12] sid(result.Path) == sid(ap.Path) && (forall k int :: !fsexists(pathjoin(sid(result.Path), k)))
